@@ -669,10 +669,16 @@ Definition check_c06 (c : c06_case) : bool := cycles_ok mac_cheap disk0 c.
    [start] = what the implementation itself reported for the copy this cycle
    continued from. *)
 Definition spec_apply_ops := apply_ops.
+(* the id stamped on the last upsert/delete among the given (acknowledged) operations,
+   for a writer whose counter starts at [c] (checkpoints consume no id) *)
+Definition acked_id (c : N) (ops : list op) : N :=
+  snd (fold_left (fun cb o => let '(c, best) := cb in
+                  let c' := match o with OCheckpoint _ => c | _ => c + 1 end in
+                  (c', match o with OUpsert _ _ _ | ODelete _ _ => c' | _ => best end)) ops (c, c)).
 Definition probe_prop (start : state) (start_next : N) (ops : list op) (p : probe) : bool :=
   let '(i, a, b, (ls, st, nxt, sts)) := p in
   (state_eqb st (apply_ops start (firstn i ops)) || state_eqb st (apply_ops start (firstn (S i) ops))) &&
-  (start_next + N.of_nat (Nat.min i (length ops)) <=? nxt).
+  (acked_id (start_next - 1) (firstn i ops) <? nxt).
 Fixpoint cycles_prop (start : state) (start_next : N) (cs : list cycle) : bool :=
   match cs with
   | [] => true
